@@ -238,3 +238,78 @@ Proof.
     specialize (H (ex_intro _ v (conj Hv eq_refl))). cbn [ir_holds cop_holds] in H. lia.
   - intros H N HN. apply In_unique_nbhds in HN as [v [Hv ->]]. cbn [ir_holds cop_holds]. specialize (H v Hv). lia.
 Qed.
+
+(* ---------- domset_sat_iff ---------- *)
+Lemma domset_sat_only_if a n E d alt l : graph_wf n E = true -> domset_ir n E d alt = Some l ->
+  irs_hold a l = true -> dominating_set n E d (filter a (rng n)).
+Proof.
+  intros Hwf Hl H. assert (Hd : 0 < d). { unfold domset_ir in Hl. destruct (Z.leb_spec d 0); [discriminate|assumption]. }
+  apply (domset_char a n E d alt l Hwf Hl) in H as [Hnum [Hact Hcov]].
+  set (S := filter a (rng n)).
+  assert (HS : forall v, In v S <-> 1 <= v <= n /\ a v = true).
+  { intros v. unfold S. rewrite filter_In, In_rng. tauto. }
+  split; [apply NoDup_filter, NoDup_rng|]. split; [intros u Hu; now apply HS in Hu|]. split.
+  - (* an injection of S into the slots 1..d *)
+    assert (Hslot : forall v, In v S -> 1 <= dec_map a n d v <= d /\ rel_of a n d v (dec_map a n d v) = true).
+    { intros v Hv. apply HS in Hv as [Hv Tv]. apply dec_map_some. destruct (Hact v Hv Tv) as [i Hi]. now exists i. }
+    assert (Hinj : forall u v, In u S -> In v S -> dec_map a n d u = dec_map a n d v -> u = v).
+    { intros u v Hu Hv Eq. destruct (Hslot u Hu) as [Ru Tu]. destruct (Hslot v Hv) as [Rv Tv]. rewrite Eq in Tu.
+      apply HS in Hu as [Hu Au]. apply HS in Hv as [Hv Av]. destruct alt.
+      - destruct Hnum as [Hai _]. destruct (Z.lt_trichotomy u v) as [L|[L|L]]; [exfalso|assumption|exfalso].
+        + apply (Hai u v (dec_map a n d v)); auto; lia.
+        + apply (Hai v u (dec_map a n d v)); auto; lia.
+      - destruct Hnum as [Hi _]. apply (Hi (dec_map a n d v) u v); auto. }
+    assert (Hle : (length (map (dec_map a n d) S) <= length (rng d))%nat).
+    { apply NoDup_incl_length.
+      - apply NoDup_map_inj_in; [exact Hinj|apply NoDup_filter, NoDup_rng].
+      - intros i Hi. apply in_map_iff in Hi as [v [<- Hv]]. apply In_rng. apply (Hslot v Hv). }
+    rewrite map_length in Hle. unfold rng in Hle. rewrite length_zrange in Hle. unfold len. lia.
+  - intros v Hv. destruct (Hcov v Hv) as [u [Hu [Tu Du]]]. exists u. split; [apply HS; now split|assumption].
+Qed.
+
+(* the assignment built from a dominating set: x_v = [v in S], slot of v = rank of v in S *)
+Definition domset_assignment (n d : Z) (S : list Z) : Z -> bool :=
+  fun x => if x <=? n then memb x S else enc_rel n d (fun v i => memb v S && (rank S n v =? i)) x.
+
+Lemma domset_sat_if n E d alt l S : graph_wf n E = true -> domset_ir n E d alt = Some l ->
+  dominating_set n E d S -> irs_hold (domset_assignment n d S) l = true.
+Proof.
+  intros Hwf Hl [Hnd [Hr [Hlen Hdom]]].
+  assert (Hn : 0 <= n). { unfold graph_wf in Hwf. apply andb_true_iff in Hwf as [Hwf _]. apply andb_true_iff in Hwf as [Hn _]. now apply Z.leb_le. }
+  apply (domset_char _ n E d alt l Hwf Hl). set (a := domset_assignment n d S).
+  assert (HD : forall v, 1 <= v <= n -> a v = memb v S).
+  { intros v Hv. unfold a, domset_assignment. destruct (Z.leb_spec v n); [reflexivity|lia]. }
+  assert (HM : forall v i, 1 <= v <= n -> 1 <= i <= d -> rel_of a n d v i = memb v S && (rank S n v =? i)).
+  { intros v i Hv Hi. unfold rel_of, a, domset_assignment. pose proof (mvar_range n n d v i Hn Hv Hi).
+    destruct (Z.leb_spec (mvar n d v i) n); [lia|]. now rewrite enc_rel_mvar. }
+  assert (HMt : forall v i, 1 <= v <= n -> 1 <= i <= d -> rel_of a n d v i = true -> In v S /\ rank S n v = i).
+  { intros v i Hv Hi T. rewrite HM in T by assumption. apply andb_true_iff in T as [T1 T2].
+    apply memb_true in T1. apply Z.eqb_eq in T2. now split. }
+  split; [|split].
+  - destruct alt.
+    + split.
+      * intros u v i A1 A2 A3 Hi _ _ T1 T2. apply HMt in T1 as [Su Ru]; [|lia|lia]. apply HMt in T2 as [Sv Rv]; [|lia|lia].
+        assert (u = v); [|lia]. apply (rank_inj S n); auto. congruence.
+      * intros v i j Hv A1 A2 A3 _ T1 T2. apply HMt in T1 as [_ R1]; [|lia|lia]. apply HMt in T2 as [_ R2]; [|lia|lia]. lia.
+    + split; [|split].
+      * intros i v1 v2 Hi H1 H2 T1 T2. apply HMt in T1 as [S1 R1]; auto. apply HMt in T2 as [S2 R2]; auto.
+        apply (rank_inj S n); auto. congruence.
+      * intros v1 v2 j1 j2 A1 A2 A3 B1 B2 B3 T1 T2. apply HMt in T1 as [S1 R1]; [|lia|lia]. apply HMt in T2 as [S2 R2]; [|lia|lia].
+        pose proof (rank_mono S n v1 v2 ltac:(lia)). lia.
+      * intros v i Hv Hi T. apply HMt in T as [Sv _]; auto. rewrite HD by assumption. now apply memb_true.
+  - intros v Hv T. rewrite HD in T by assumption. apply memb_true in T. exists (rank S n v).
+    pose proof (rank_pos S n v T Hv). pose proof (rank_le S n v Hnd). split; [lia|].
+    rewrite HM by lia. rewrite (proj2 (memb_true v S) T), Z.eqb_refl. reflexivity.
+  - intros v Hv. destruct (Hdom v Hv) as [u [Su Du]]. exists u. split; [now apply Hr|]. split; [|assumption].
+    rewrite HD by (now apply Hr). now apply memb_true.
+Qed.
+
+(* T3: the dominating-set formula (either encoding) is satisfiable iff the graph has a dominating set
+   of size at most d *)
+Theorem domset_sat_iff n E d alt l : graph_wf n E = true -> domset_ir n E d alt = Some l ->
+  ((exists a, irs_hold a l = true) <-> exists S, dominating_set n E d S).
+Proof.
+  intros Hwf Hl. split.
+  - intros [a H]. exists (filter a (rng n)). now apply (domset_sat_only_if a n E d alt l).
+  - intros [S HS]. exists (domset_assignment n d S). now apply (domset_sat_if n E d alt l S).
+Qed.
